@@ -18,6 +18,12 @@ a non-identity Direction, image meshes with explicit bases, `.points` / `.equals
 BEFORE the disturbances, and once more after the random pairs.  The demanded verdict of each directed pair is the
 unambiguous one of the property (independent oracle `history_p5d.oracle_lm`, default basis = identity; cross-checked
 with the Lean spec) and does not depend on the position.
+Phase 6, package G (fcv/c16_batches_p6g.py; notes/PHASE6_G2_C16.md): directed batches for dimensions of the quantifier that
+were sampled at one point only — the full matrix of representation pairs (incl. permuted views over structured meshes and
+two-column point arrays) x equal / unequal variants x evaluation protocols (order of the two calls, arrays handed out before,
+repeated calls), cell-type sets (retyped blocks, both members of an interchangeable pair in one mesh, ragged polygon blocks),
+storage types / memory layouts of the arrays, large lattices (> 1000 / > 65536 points, difference at the first / middle /
+1024th / last point or cell), non-finite coordinates (S1 / S2 only).
 Known classes: F7 (ImageMesh.equals compares spacing/basis with the coordinate-scaled absolute tolerance),
 F14 (short-cuts and PermutedMesh.equals use the receiver's tolerances only: asymmetric when they differ).
 """
@@ -28,9 +34,14 @@ import math
 
 from fcv import c16io, meshgen, core
 from fcv import history_p5d as hist
+from fcv import c16_batches_p6g as p6g
 from fcv.num import f2u
 
 REL = 1e-8
+# phase 6 (package G): two meshes that BOTH store integer-typed coordinates make Mesh.equals raise (suspected defect, reported in
+# notes/PHASE6_G2_C16.md (c), not registered in KNOWN_FINDINGS.json): recorded as an observation (tag obs-int-coords-raise,
+# evidence note) until the lead decides; True = rule S1 applies to them like to every other pair
+INT_COORDS_STRICT = False
 
 
 # ---------------------------------------------------------------- generators
@@ -453,19 +464,32 @@ def params_within(sa, sb, rel, abs_):
     return False
 
 
-def check_pair(ctx, sa, sb, tags, lean_rows, extra=None):
+def check_pair(ctx, sa, sb, tags, lean_rows, extra=None, protocol=None, gen_rows=True):
     """one unordered pair: both orders on the implementation, the spec rules S1..S5, queue driver lines;
-    `extra` = further entries of the reported case (the recorded history of the process, see HistoryBatch)"""
+    `extra` = further entries of the reported case (the recorded history of the process, see HistoryBatch);
+    `protocol` = how the two verdicts are obtained (fcv.c16_batches_p6g.run_protocol; None = a.equals(b), b.equals(a)
+    on fresh objects), part of the reported case"""
     case = dict({"a": sa, "b": sb}, **(extra or {}))
+    if protocol:
+        case["protocol"] = protocol
     try:
-        A, B = c16io.build(sa), c16io.build(sb)
+        A, B = p6g.build(sa), p6g.build(sb)
     except (IndexError, KeyError, ValueError, TypeError, RuntimeError, AssertionError, AttributeError) as e:
         # every generated description is a well-formed mesh in one of the public representations (explicit, sorted /
         # stripped view, rectilinear, structured, image): a representation that cannot even be built has no verdict
         ctx.violation(dict(case, order="build"), f"X:{type(e).__name__}: {e}"[:200], "T|F", cls=None,
                       what="building a public representation of a well-formed mesh raised, so it compares equal to nothing")
         return
-    ab, ba = c16io.run_equals(A, B), c16io.run_equals(B, A)
+    ab, ba, earlier = p6g.run_protocol(A, B, protocol)
+    if p6g.int_coords(sa, sb) and not INT_COORDS_STRICT:
+        raised = ab.startswith("X:") or ba.startswith("X:")
+        if raised and not ctx.dist["obs-int-coords-raise"]:
+            ctx.notes.append("observation (suspected defect, see notes/PHASE6_G2_C16.md): equals raises when both meshes store "
+                             f"integer-typed coordinates: a.equals(b)={ab} b.equals(a)={ba}")
+        ctx.case((sa, sb), nontrivial=sa != sb, tags=list(tags) + ["obs-int-coords-" + ("raise" if raised else "ok")])
+        return
+    fuzz = p6g.margin(sa, sb)
+    nolean = p6g.no_model(sa, sb)
     ta, tb = c16io.tolerances(A), c16io.tolerances(B)
     tol_differ = ta != tb
     shortcut = sa["k"] == sb["k"] and sa["k"] in "RSI"
@@ -483,7 +507,7 @@ def check_pair(ctx, sa, sb, tags, lean_rows, extra=None):
     mx = (max(ta[0], tb[0]), max(ta[1], tb[1]))
 
     def harmonized_verdicts():
-        HA, HB = c16io.build(_harmonized(sa, mn)), c16io.build(_harmonized(sb, mn))
+        HA, HB = p6g.build(_harmonized(sa, mn)), p6g.build(_harmonized(sb, mn))
         hab, hba = c16io.run_equals(HA, HB), c16io.run_equals(HB, HA)
         hexp = c16io.run_equals(c16io.explicit_copy(HA), c16io.explicit_copy(HB))
         return hab, hba, hexp
@@ -528,8 +552,10 @@ def check_pair(ctx, sa, sb, tags, lean_rows, extra=None):
                                   what="all defining parameters within tolerance but not equal")
     else:
         # S5 — generic path against the independent oracle
-        o_min = c16io.oracle_mesh_equal(lma, lmb, mn[1], mn[0])
-        o_max = c16io.oracle_mesh_equal(lma, lmb, mx[1], mx[0])
+        # fuzz > 1 (both sides float32 / float16: the comparison is not evaluated in binary64): a verdict is demanded
+        # only outside a band of that factor around the tolerances
+        o_min = c16io.oracle_mesh_equal(lma, lmb, mn[1] / fuzz, mn[0] / fuzz)
+        o_max = c16io.oracle_mesh_equal(lma, lmb, mx[1] * fuzz, mx[0] * fuzz)
         for v, order in ((ab, "a.equals(b)"), (ba, "b.equals(a)")):
             if v == "T" and not o_max:
                 ctx.violation(dict(case, order=order), v, "F", cls=None,
@@ -539,13 +565,25 @@ def check_pair(ctx, sa, sb, tags, lean_rows, extra=None):
                               what="meshes equal within the smaller tolerance compare unequal")
         tags.append("oracle-" + ("T" if o_min else "F"))
     # driver lines (correspondence), both orders + generated explicit data / default tolerance
-    ea, eb = c16io.enc_any(sa, A), c16io.enc_any(sb, B)
-    lean_rows.append(("eq", case, "a.equals(b)", ab, f"c16eq {ea} {eb}", None))
-    lean_rows.append(("eq", case, "b.equals(a)", ba, f"c16eq {eb} {ea}", None))
-    for s, obj, enc, lm in ((sa, A, ea, lma), (sb, B, eb, lmb)):
-        if s["k"] in "RSI":
-            dflt = None if "tol" in s else f2u(obj.absolute_tolerance)
-            lean_rows.append(("gen", s, "", dflt, f"c16gen {enc} {meshgen.enc_mesh(lm)}", None))
+    if not nolean:
+        ea, eb = c16io.enc_any(sa, A), c16io.enc_any(sb, B)
+        lean_rows.append(("eq", case, "a.equals(b)", ab, f"c16eq {ea} {eb}", None))
+        lean_rows.append(("eq", case, "b.equals(a)", ba, f"c16eq {eb} {ea}", None))
+        for order, v in earlier:    # protocol "twice": the first verdicts are verdicts of the same pair
+            lean_rows.append(("eq", dict(case, call="first of two"), order, v,
+                              f"c16eq {ea} {eb}" if order == "a.equals(b)" else f"c16eq {eb} {ea}", None))
+        for s, obj, enc, lm in ((sa, A, ea, lma), (sb, B, eb, lmb)):
+            if s["k"] in "RSI" and gen_rows:
+                dflt = None if "tol" in s else f2u(obj.absolute_tolerance)
+                lean_rows.append(("gen", s, "", dflt, f"c16gen {enc} {meshgen.enc_mesh(lm)}", None))
+    for order, v in earlier:
+        # independent of the model: a repeated call on the same objects is a verdict of the same pair and has to satisfy the
+        # same rules; where it differs from the last call at most one of the two can be the model's verdict
+        if v != (ab if order == "a.equals(b)" else ba):
+            if True:
+                ctx.violation(dict(case, order=order), f"first call {v}, second call {ab if order == 'a.equals(b)' else ba}",
+                              "one verdict per pair", cls=None, what="repeated equals on the same objects changed its answer")
+            tags.append("twice-differs")
     nontrivial = sa != sb
     ctx.case((sa, sb), nontrivial=nontrivial, tags=tags,
              sample={"a": sa["k"], "b": sb["k"], "tags": tags[:3], "a.equals(b)": ab, "b.equals(a)": ba,
@@ -603,6 +641,69 @@ def check_compat_table(ctx):
                 ctx.mismatch({"types": [a, b]}, i, rep, what="is_compatible_with: impl vs model")
     ctx.extra["compat_pairs_checked"] = len(pairs)
     ctx.evaluations += len(pairs)
+
+
+# ---------------------------------------------------------------- phase 6 package G: directed batches (fcv.c16_batches_p6g)
+
+def check_large(ctx, case):
+    """large lattices (> 1000 / > 65536 points): identical, or ONE coordinate of one point / ONE corner of one cell differs
+    at the first / a middle / row 1024 / the last position; the verdict follows from the construction (search, no model)"""
+    ab, ba = p6g.eval_large(case)
+    size = "gt65536" if case["npoints"] > 65536 else "gt1000" if case["npoints"] > 1000 else "small"
+    tags = ["large", "large-" + size, "large-" + case["name"].split(":")[0], "large-" + case["name"].split(":")[1],
+            f"verdict-{ab}{ba}"]
+    for v, order in ((ab, "a.equals(b)"), (ba, "b.equals(a)")):
+        if v != case["expect"]:
+            ctx.violation(dict(case, order=order), v, case["expect"], cls=None,
+                          what=("equals raised an exception" if v.startswith("X:") else
+                                "two identical large lattices compare unequal" if case["expect"] == "T" else
+                                "large lattices that differ in one coordinate (1e-3 x the lattice constant) / one corner of "
+                                "one cell compare equal"))
+    ctx.case(("large", case["name"], case["a"], case["b"]), nontrivial=True, tags=tags)
+
+
+def check_nonfinite(ctx, sa, sb, name):
+    """NaN / inf coordinates or parameters: rules S1 (never an exception) and S2 (same answer in both orders) only"""
+    A, B = p6g.build(sa), p6g.build(sb)
+    ab, ba = c16io.run_equals(A, B), c16io.run_equals(B, A)
+    case = {"a": sa, "b": sb, "p6g": "nonfinite"}
+    for v, order in ((ab, "a.equals(b)"), (ba, "b.equals(a)")):
+        if v.startswith("X:"):
+            ctx.violation(dict(case, order=order), v, "T|F", cls=None, what="equals raised an exception (non-finite coordinates)")
+    if ab != ba and not (ab.startswith("X:") or ba.startswith("X:")):
+        # receiver-only tolerances (F21, local class F14): the default absolute tolerance of a mesh with a non-finite
+        # coordinate is inf / nan, the partner's is finite
+        cls = "F14" if c16io.tolerances(A) != c16io.tolerances(B) and (sa["k"] in "PRSI" or sb["k"] in "PRSI") else None
+        ctx.violation(case, f"a.equals(b)={ab} b.equals(a)={ba}", "equal answers", cls=cls, what="mesh equality is not symmetric")
+    ctx.case(("nonfinite", sa, sb), nontrivial=True, tags=[name, "nonfinite", f"verdict-{ab}{ba}"])
+
+
+def run_p6g_batches(ctx, rows):
+    import random
+    rng = random.Random((ctx.seed * 7919) ^ 0x16C6)     # own stream: the pairs drawn by the older batches keep their seeds
+    batches = [("matrix", p6g.matrix_cases(rng, ctx.scale(6, 60))),
+               ("celltypes", p6g.celltype_cases(rng, ctx.scale(60, 900))),
+               ("storage", p6g.storage_cases(rng, ctx.scale(90, 1200)))]
+    seen = set()
+    for bname, cases in batches:
+        for ci, (sa, sb, tags, proto) in enumerate(cases):
+            # the matrix batch meets the same few structured objects again and again: their generated points / connectivity /
+            # default tolerance are compared with the model's when a description occurs for the first time (and for every
+            # eighth pair: objects that went through different protocols)
+            keys = {repr(s_) for s_ in (sa, sb) if s_["k"] in "RSI"}
+            gen = bname != "matrix" or ci % 8 == 0 or not keys <= seen
+            seen |= keys
+            check_pair(ctx, sa, sb, ["p6g-" + bname] + tags, rows, None, protocol=proto, gen_rows=gen)
+            if len(rows) >= 4000:
+                flush_lean(ctx, rows)
+                del rows[:]
+        flush_lean(ctx, rows)
+        del rows[:]
+    exts = [[40, 30, 0], [0, 1500, 0]] + ctx.scale([[300, 0, 230]], [[11, 10, 9], [0, 12, 90], [300, 0, 230], [0, 0, 70000], [45, 40, 40], [260, 260, 0]])
+    for case in p6g.large_cases(rng, exts, full_above=ctx.scale(20000, 10 ** 9)):
+        check_large(ctx, case)
+    for sa, sb, name in p6g.nonfinite_cases():
+        check_nonfinite(ctx, sa, sb, name)
 
 
 # ---------------------------------------------------------------- directed: explicitly set tolerances incl. exact zeros
@@ -984,7 +1085,14 @@ def run(ctx):
                 "pairs relying on the default basis (API without basis=, .vti without Direction) against identity / "
                 "rotated / explicit / rectilinear / structured partners, evaluated at fixed positions (pristine process, "
                 "after each disturbing read of an oriented .vti or explicit-basis operation, objects built before, after "
-                "the random pairs); a (position, pair) counts as one distinct case.")
+                "the random pairs); a (position, pair) counts as one distinct case. Plus (phase 6 G) directed batches: per grid all "
+                "81 ordered pairs of 9 representations (explicit in grid / sorted order, view over explicit, image, rectilinear, "
+                "structured, views over the three structured classes; two-column variants for grids in the plane z = 0) with the "
+                "second member equal / shifted in a meshed or flat direction / one cell rewired / a block retyped / a point "
+                "inserted first, middle, last, under 7 evaluation protocols; cell-type-set pairs (retyped block, interchangeable "
+                "pair split inside one mesh, ragged polygons); explicit pairs over coordinate dtypes x connectivity dtypes x "
+                "memory layouts; large lattices (> 1000, > 65536 points) differing at one position; non-finite coordinates "
+                "(no exception, symmetric).")
     ctx.assumptions += [
         "numpy float64 arithmetic is IEEE round-to-nearest-even (point generation of ImageMesh modelled for bases with at "
         "most one non-zero entry per row; other bases only through the parameter short-cut and the implementation-side search)",
@@ -1028,6 +1136,9 @@ def run(ctx):
             rows = []
     flush_lean(ctx, rows)
     del rows[:]
+    # phase 6 package G: representation matrix x evaluation protocols, cell-type sets, storage types / layouts, large
+    # lattices, non-finite coordinates
+    run_p6g_batches(ctx, rows)
     # history batch, last position: after the random pairs of this run (hundreds of other meshes with explicit
     # bases, generated points, equality checks) — those operations are not listed in the recorded history
     hb.complete = False
@@ -1059,14 +1170,24 @@ def replay(ctx, payload):
         i = CellType.from_name(a).is_compatible_with(CellType.from_name(b))
         print(f"replay: is_compatible_with({a},{b})={i} property={c16io.compat(a, b)}")
         bad = bool(i) != c16io.compat(a, b)
+    elif case.get("p6g") == "large":
+        bad = p6g.replay_large(case)
+    elif case.get("p6g") == "nonfinite":
+        sub = core.Ctx("C16", "quick", 0)
+        check_nonfinite(sub, case["a"], case["b"], "replay")
+        for v in sub.spec_viol:
+            print(f"replay: {v['what']}: impl={v['impl']} property demands={v['spec']} class={v['class']}")
+        bad = any(v["class"] is None for v in sub.spec_viol)
     elif "expect" in case:
         bad = replay_history(case)
     else:
+        if case.get("strict_int_coords"):       # replay of the integer-coordinate observation as an ordinary pair (rule S1)
+            globals()["INT_COORDS_STRICT"] = True
         for op in case.get("history", []):      # a random pair that failed in a process with a recorded history
             hist.perform(op)
         sub = core.Ctx("C16", "quick", 0)
         sub.driver_ok = False
-        check_pair(sub, case["a"], case["b"], [], [])
+        check_pair(sub, case["a"], case["b"], [], [], None, protocol=case.get("protocol"))
         for v in sub.spec_viol:
             print(f"replay: {v['what']}: impl={v['impl']} property demands={v['spec']} class={v['class']}")
         bad = bool(sub.spec_viol)
